@@ -47,7 +47,7 @@ CLAIMED = {
  "C17": CLAIMED_C17,
  "C18": P("For generated image descriptions (escapes, references, breaks, nested emphasis/links/images, deep emphasis) the alt attribute equals the tag-stripped text of the same inline content rendered as a paragraph; model/implementation correspondence." + PENDING % "C18", "DESIGN.md section 6 C18", category="exploration", technique=TECH_X),
  "C19": P("An independent Python serializer applied to the implementation's own renderer events (recorded through the public Renderer trait) reproduces HTML and XHTML, purity flag (render twice, tree unchanged), outputs above 16 KiB, NUL in every sink, two fence prefixes interleaved in one process; the model's events and serializer are compared with the implementation." + PENDING % "C19", "DESIGN.md section 6 C19", category="exploration", technique=TECH_X),
- "C20": P("Random operation sequences over five value types against a Python dict model; random and deep (> 256 levels) tree shapes against the pre-order/depth specification; replace preserves children, range, attributes; model/implementation correspondence." + PENDING % "C20", "DESIGN.md section 6 C20", category="exploration", technique=TECH_X),
+ "C20": P("Machine-checked Coq proofs: (storage) under the invariant 'one entry per type id, each boxed value has the type of its key', insert / get_or_insert / get_mut+assign / remove / clear / contains / len refine a total map type id -> option value for all keys and values, the invariant holds after any operation sequence from the empty set and no downcast ever fails; (traversal) walk lists exactly the nodes at the valid child-index paths, each once, parents first and siblings in order, with depth = start depth + path length, for every tree; walk_mut visits the same addresses whatever the callback does; replace changes the kind only. The model is tied to /repo on every run by differential correspondence (eset scripts over five value types incl. zero-sized and same-layout ones, walk/walk_mut/replace on random and > 256-level-deep shapes) and an independent Python specification.", "DESIGN.md section 6 C20", note=COMMON_NOTE + " TypeId injectivity and HashMap-as-finite-map are trusted."),
 }
 
 NOT_YET = {}
